@@ -32,6 +32,9 @@ theorem stepMisc {σ σ' : State} {a : Action} (hb : Basic σ) (hc : Cover c σ)
     obtain ⟨g1, rfl⟩ := doPublish_some h
     exact ⟨Nat.le_refl _, fun _ t ht => absurd (show σ.tr = some t from ht) (by rw [g1]; simp),
       fun h0 => absurd g1 h0⟩
+  | seqSkip n =>
+    obtain ⟨g1, g2, rfl⟩ := doSeqSkip_some h
+    exact ⟨Nat.le_refl _, fun hT => hT, fun h0 => absurd g1 h0⟩
   | rotate =>
     obtain ⟨g1, g2, g3, rfl⟩ := doRotate_some h
     exact ⟨Nat.le_refl _, fun hT => hT, fun _ _ => ⟨rfl, rfl⟩⟩
@@ -150,6 +153,61 @@ theorem trinv_reachable {σ : State} (h : Reachable Cfg.real c σ) : TrInv c σ 
     | refl => exact ⟨inv_init, trinv_init⟩
     | tail a _ hs ih => exact ⟨inv_step ih.1 hs, (stepMisc ih.1.basic ih.1.cover hs).trinv ih.2⟩
   exact (this σ h).2
+
+/-! ## buffers only grow, and only by entries above `pub` -/
+
+def BufGrow (σ σ' : State) : Prop :=
+  ∀ id, ∃ ext, getBuf σ' id = getBuf σ id ++ ext ∧ ∀ e ∈ ext, σ.pub < e.seq
+
+theorem bufGrow_same {σ σ' : State} (h : σ'.bufs = σ.bufs) : BufGrow σ σ' :=
+  fun id => ⟨[], by simp [getBuf, h], by simp⟩
+
+theorem step_bufGrow {σ σ' : State} {a : Action} (h : Step Cfg.real c σ a σ') : BufGrow σ σ' := by
+  obtain ⟨h, _⟩ := h
+  cases a with
+  | writeInsert es =>
+    obtain ⟨g1, g2, rfl⟩ := doWriteInsert_some h
+    obtain ⟨hc1, _⟩ := consec_spec _ _ g2
+    intro id
+    rw [getBuf_wi σ _ es id rfl]
+    by_cases hid : id = σ.mem
+    · exact ⟨es, by simp [hid], fun e he => by have := (hc1 e he).1; omega⟩
+    · exact ⟨[], by simp [hid], by simp⟩
+  | publish => obtain ⟨_, rfl⟩ := doPublish_some h; exact bufGrow_same rfl
+  | seqSkip n => obtain ⟨_, _, rfl⟩ := doSeqSkip_some h; exact bufGrow_same rfl
+  | rotate => obtain ⟨_, _, _, rfl⟩ := doRotate_some h; exact bufGrow_same rfl
+  | flushInstall => obtain ⟨f, _, _, rfl⟩ := doFlushInstall_some h; exact bufGrow_same rfl
+  | flushDrop => obtain ⟨_, _, rfl⟩ := doFlushDrop_some h; exact bufGrow_same rfl
+  | compStart => obtain ⟨_, rfl⟩ := doCompStart_some h; exact bufGrow_same rfl
+  | compCommit nt => obtain ⟨m, _, _, rfl⟩ := doCompCommit_some h; exact bufGrow_same rfl
+  | snapAcquire => have := doSnapAcquire_some h; subst this; exact bufGrow_same rfl
+  | snapRelease id => have := doSnapRelease_some h; subst this; exact bufGrow_same rfl
+  | rNew => have := doRNew_some h; subst this; exact bufGrow_same rfl
+  | rSeq i => obtain ⟨r, _, _, rfl⟩ := doRSeq_some h; exact bufGrow_same rfl
+  | rSeqSnap i id => obtain ⟨r, s, _, _, _, rfl⟩ := doRSeqSnap_some h; exact bufGrow_same rfl
+  | rMems i => obtain ⟨r, _, _, _, _, rfl⟩ := doRMems_some h; exact bufGrow_same rfl
+  | rVer i => obtain ⟨r, _, _, _, _, rfl⟩ := doRVer_some h; exact bufGrow_same rfl
+  | rLookup i k => obtain ⟨r, s, mf, v, _, _, _, _, rfl⟩ := doRLookup_some h; exact bufGrow_same rfl
+  | rRelease i => obtain ⟨r, _, _, _, _, rfl⟩ := doRRelease_some h; exact bufGrow_same rfl
+  | trOpen => obtain ⟨_, _, _, _, rfl⟩ := doTrOpen_some h; exact bufGrow_same rfl
+  | trPut e => obtain ⟨t, _, _, _, rfl⟩ := doTrPut_some h; exact bufGrow_same rfl
+  | trGet k => obtain ⟨t, _, _, rfl⟩ := doTrGet_some h; exact bufGrow_same rfl
+  | trInstall => obtain ⟨t, _, _, rfl⟩ := doTrInstall_some h; exact bufGrow_same rfl
+  | trPublish => obtain ⟨t, _, _, rfl⟩ := doTrPublish_some h; exact bufGrow_same rfl
+  | trDiscard => obtain ⟨t, _, _, rfl⟩ := doTrDiscard_some h; exact bufGrow_same rfl
+
+theorem steps_bufGrow {σ σ' : State} (hb : Basic σ) (h : Steps Cfg.real c σ σ') : BufGrow σ σ' := by
+  induction h with
+  | refl => exact fun id => ⟨[], by simp, by simp⟩
+  | tail a hs hstep ih =>
+    intro id
+    obtain ⟨e1, h1, h1'⟩ := ih id
+    obtain ⟨e2, h2, h2'⟩ := step_bufGrow hstep id
+    refine ⟨e1 ++ e2, by rw [h2, h1, List.append_assoc], ?_⟩
+    intro e he
+    rcases List.mem_append.1 he with he | he
+    · exact h1' e he
+    · have := h2' e he; have := steps_pub_le hb hs; omega
 
 /-! ## running explicit traces -/
 
